@@ -287,7 +287,7 @@ CallDo(S, st_, h, ord) ==
          ELSE IF st_.nodes[p].d # CurData(S, st_, h) THEN [s0 EXCEPT !.pc[h].ph = "set"]
          ELSE Registered(S, s0, h)
     [] pc.ph = "set" ->
-         IF ~ex THEN [s0 EXCEPT !.pc[h] = [@ EXCEPT !.ph = "end", !.res = "error"]]
+         IF ~ex THEN [s0 EXCEPT !.pc[h] = [@ EXCEPT !.ph = "end", !.res = "error:NoNodeError"]]
          ELSE Registered(S, [s0 EXCEPT !.nodes[p].d = CurData(S, st_, h),
                                        !.last.w = [op |-> "set", path |-> p, o |-> own]], h)
     [] pc.ph = "watch" ->
@@ -601,7 +601,7 @@ NewerKept == ~st.last.stole
 
 (* sanity of the model itself: a request never finds its own node missing     *)
 (* (MaxKill = 0)                                                              *)
-NoError == \A h \in Range(Hosts) : st.pc[h].res # "error"
+NoError == \A h \in Range(Hosts) : st.pc[h].res # "error:NoNodeError"
 
 -----------------------------------------------------------------------------
 (* Extension (MaxKill > 0).  With helpers in the environment Ephemeral, Waits, *)
